@@ -31,6 +31,23 @@
 namespace {
 
 std::string g_desc;
+
+// The compensating loops of the bounded queue busy-wait without yielding while the opposite party
+// "is on its way"; on an oversubscribed machine the spinners starve the one thread that can make
+// progress (10^9 spins per run). The hook therefore yields at that point (a place where a
+// preemptive thread can be descheduled anyway) and forwards only every 16th hit to the policy /
+// the hit counter (point:bq:compensate counts 1/16 of the real hits).
+void c17_hook(const char* name) noexcept {
+  if (name[0] == 'b' && strcmp(name, "bq:compensate") == 0) {
+    static thread_local unsigned n = 0;
+    if ((++n & 15) != 0) {
+      ::sched_yield();
+      return;
+    }
+  }
+  vf::perturb(name);
+}
+
 void fail(const std::string& key, const std::string& msg) { vf::violation(key, msg, g_desc); }
 
 ////////////////////////////////////////////////////////////////////////////////
@@ -668,7 +685,7 @@ int moveassign_child(uint64_t variant) {
       Pooled b = pool.pop();  // target owns another object, which must go back to the pool
       b = std::move(a);
       if (a || b.get() != oa) return 23;
-      if (pool.free_object_number() != 2) return 24;
+      if (pool.free_object_number() != 3) return 24;  // b's previous object went back through b's deleter
       b.reset();
       if (pool.free_object_number() != 4) return 25;
     }
@@ -709,6 +726,9 @@ void run_moveassign(uint64_t seed, uint64_t e) {
 
 int main(int argc, char** argv) {
   vf::init(argc, argv, "C17", "c17_pages");
+#ifdef BABYLON_VERIF
+  ::babylon::verif::point_hook = &c17_hook;
+#endif
   auto& a = vf::args();
   std::string mode = a.mode.empty() ? "all" : a.mode;
   if (mode == "pool-moveassign") {
